@@ -111,7 +111,25 @@ CLAIM = dict(
           "states, links; per case: SCP buffer 64-512, n_tries 1-5, timeout, root chip; window size is fixed at 1 by the "
           "code (no public way to change it). [8 non-termination] every implementation call runs under "
           "common.cpu_limit (2 s per probe, 6 s per derivation bundle, quartered after 3 hangs) and a datagram budget; a "
-          "call that does not return is `did-not-return` (the Lean models are total)."),
+          "call that does not return is `did-not-return` (the Lean models are total). "
+          "WHICH CORES ANSWER: in the machine specification (Lean `coreAnswers`, theorem monitor_always_answers) and in "
+          "the simulator that takes its list of states from it, a command addressed to core p of a chip is answered by "
+          "the monitor when p = 0 and otherwise only while SARK's event handling is alive on that core: states wait, "
+          "c_main, run, sync0, sync1, pause (a core that reports a software version counts as running). idle, dead, "
+          "power_down, watchdog, runtime_exception and - the cautious reading of consts.AppState - the transitory init "
+          "and the finished exit state get NO reply (the controller's timeout SCPError). Every probe in scope must "
+          "still return the machine's values for cores in EVERY state: checked for get_processor_status, get_iobuf / "
+          "get_iobuf_bytes, read_vcpu_struct_field, read_struct_field, get_router_diagnostics, get_p2p_routing_table, "
+          "get_chip_info, get_system_info in all streams (core states of the status block, the info reply and the "
+          "simulator agree). Explicitly addressed cores (read_struct_field(p=), get_software_version(processor=)) are "
+          "only cores that answer. KNOWN LIMIT kept out of the generators (reported): when the core number is supplied "
+          "through the CONTEXT (`with mc(x=, y=, p=)`), rig's internal reads pick it up and go to that core, so every "
+          "probe inside such a context times out for cores that do not answer; the context carries p only for cores "
+          "that answer (environment C14_CTX_ANY_CORE=1 lifts the restriction). FULL RANGE: every 32-bit quantity read "
+          "back (router counters, registers, psr/sp/lr, mailbox words, file / line / time, user words, free SDRAM / SRAM, "
+          "block time / ms / length, sv words, IOBUF block addresses on both sides of 2**31) and every 16- / 8-bit field is "
+          "drawn over its full range with the edges 0, 1, 2**(k-1) - 1, 2**(k-1), 2**k - 1; a negative number in a result "
+          "is judged wrong without consulting the oracle (all quantities are unsigned)."),
     technique="Lean 4 theorems over decode model o machine specification + correspondence against a simulated machine")
 
 THEOREMS = ["consts_documented", "chipinfo_roundtrip", "p2p_roundtrip", "p2p_table_mem", "sysinfo_exact",
@@ -122,7 +140,7 @@ THEOREMS = ["consts_documented", "chipinfo_roundtrip", "p2p_roundtrip", "p2p_tab
             "probe_to_machine_exact", "contains_exact", "links_cores_enumerate", "target_lengths_exact",
             "probe_views_exact", "sysinfo_oracle_exact", "reservations_oracle_exact", "dead_oracle_exact",
             "machine_oracle_exact", "links_cores_once", "struct_field_exact",
-            "layout_default_instance"]
+            "layout_default_instance", "monitor_always_answers"]
 
 RULE = ("cases = machine states: (system) P2P dimensions 1..12 x 1..12 and sparse 255-wide/high tables, listed / "
         "unlisted / unresponsive (silent or error-code) / ghost chips, per-chip core counts, state patterns shared by "
@@ -148,6 +166,14 @@ FATAL_CODES = [0x87, 0x8b, 0x8c, 0x8e, 0x8f, 0x83, 0x86]
 
 
 # --------------------------------------------------------------------------- simulated machine
+_ANSWERING = [None]     # states in which an application core answers commands (from the Lean machine specification)
+
+
+def ensure_answering(ctx):
+    if _ANSWERING[0] is None:
+        _ANSWERING[0] = set(ctx.lean([{"suite": "c14", "op": "spec_answers"}])[0]["app"])
+
+
 class ProbeMachine(simmachine.SimMachine):
     """SimMachine + the `info` command and configurable sver replies; every byte it
     serves comes from the Lean machine specification."""
@@ -156,6 +182,23 @@ class ProbeMachine(simmachine.SimMachine):
         simmachine.SimMachine.__init__(self, 256, 256, buffer_size=buffer_size, root=root)
         self.info = {}
         self.sver = {}
+        self.core_state = {}        # (x, y, p) -> state; cores never mentioned are idle
+        self.unanswered = 0
+
+    def set_states(self, x, y, states):
+        for q, st in enumerate(states):
+            self.core_state[(x, y, q)] = st
+
+    def answers(self, x, y, p):
+        """the Lean machine specification's `coreAnswers`: the monitor always; an application core only while
+        SARK is alive on it (a core that reports a software version is running that software)"""
+        x, y = self.chip(x, y)
+        if p == 0 or (x, y, p) in self.sver:
+            return True
+        ok = self.core_state.get((x, y, p), IDLE) in _ANSWERING[0]
+        if not ok:
+            self.unanswered += 1
+        return ok
 
     def cmd_31(self, req):
         r = self.info.get((req["x"], req["y"]))
@@ -179,6 +222,8 @@ def run_controller(machine, fn, silent=(), rc_chips=None, n_tries=3):
 
     def scr(k, data):
         q = simnet.parse_scp(data)
+        if not machine.answers(q["x"], q["y"], q["p"]):
+            return []               # nobody is listening on that core
         xy = machine.chip(q["x"], q["y"])
         if xy in silent and q["cmd"] == 31:
             return []
@@ -202,8 +247,8 @@ class Budget(object):
     the probe is lost once (the retry gets through), ("loseall", i, n) = it and its n - 1 retries are lost,
     ("rc", i) = it is answered with an error code"""
 
-    def __init__(self, limit=3000):
-        self.limit = limit
+    def __init__(self, limit=3000, machine=None):
+        self.limit, self.machine = limit, machine
         self.reset()
 
     def reset(self, plan=None):
@@ -215,6 +260,10 @@ class Budget(object):
             raise Runaway()
         i = self.sent
         self.sent += 1
+        if self.machine is not None:
+            q = simnet.parse_scp(data)
+            if not self.machine.answers(q["x"], q["y"], q["p"]):
+                return []           # nobody is listening on that core
         if self.plan:
             mode, at = self.plan[0], self.plan[1]
             if mode == "lose1" and i == at or mode == "loseall" and at <= i < at + self.plan[2]:
@@ -644,11 +693,19 @@ def membership_holds(si, state_chips):
 
 # --------------------------------------------------------------------------- generators
 def edge(rng, bound):
+    """a value of a field with `bound` values: 0, 1, the largest, the sign-bit neighbours bound/2 - 1 and bound/2
+    (what a signed reading of the field gets wrong), otherwise uniform over the full range"""
     r = rng.random()
-    if r < 0.12:
+    if r < 0.10:
         return 0
-    if r < 0.24:
+    if r < 0.20:
         return bound - 1
+    if r < 0.25:
+        return min(1, bound - 1)
+    if r < 0.31:
+        return max(bound // 2 - 1, 0)
+    if r < 0.37:
+        return bound // 2
     return rng.randrange(bound)
 
 
@@ -851,11 +908,12 @@ def ascii_text(rng, n, alphabet=b"abcXYZ 019_-/&.\t"):
 def gen_blocks(rng, size, ascii_only=False, nblocks=None):
     if nblocks is None:
         nblocks = rng.choice([0, 1, 1, 2, 3, 4])
+    base = rng.choice([0x60000000, 0x60000000, 0x7fe00000, 0xc0000000])      # also across / above 2**31
     blocks = []
     for i in range(nblocks):
         ln = rng.choice([0, 1, size - 1, size, size, rng.randrange(size + 1), size + 5, 2 ** 32 - 1])
         data = ascii_text(rng, size) if ascii_only or rng.random() < 0.8 else [rng.randrange(256) for _ in range(size)]
-        blocks.append({"addr": 0x60000000 + (0x100000 if nblocks < 100 else 0x4000) * i + 4 * rng.randrange(1, 1000),
+        blocks.append({"addr": base + (0x100000 if nblocks < 100 else 0x4000) * i + 4 * rng.randrange(1, 1000),
                        "time": edge(rng, 2 ** 32),
                        "ms": edge(rng, 2 ** 32), "len": ln, "data": data})
     rng.shuffle(blocks)
@@ -1026,7 +1084,15 @@ def gen_epoch(rng, coords, size, vbase, tmpl, clear):
     e["p2p"] = {"dim_w": w, "dim_h": h, "p2p": sorted([x, y, r] for (x, y), r in p2p.items())}
     e["clear"] = clear
     e["sver"] = gen_sver(rng)        # this chip's software answers `sver` with its own name / version / buffer size
+    sync_states(e)
     return e
+
+
+def sync_states(e):
+    """one machine state: the state byte of core p in the chip's `info` answer is the cpu_state of its vcpu block,
+    and the core that answers `sver` is running"""
+    e["info"]["states"][e["p"]] = e["status"]["cpu_state"]
+    e["info"]["states"][sver_core(e)] = RUN
 
 
 def gen_session(rng):
@@ -1081,6 +1147,7 @@ def gen_session(rng):
                     e["status"]["time"] = edge(rng, 2 ** 32)
                     e["info"]["states"] = gen_states(rng, [])
                     e["diag"] = [edge(rng, 2 ** 32) for _ in range(16)]
+                    sync_states(e)
                 chips[i]["epochs"].append(e)
                 cur[i] = len(chips[i]["epochs"]) - 1
                 st["set"].append([i, cur[i]])
@@ -1275,9 +1342,15 @@ def session_image(w, ci, ek):
 
 
 def sver_core(e):
-    """the core whose `sver` answer the epoch defines (never core 0 of a chip: the controller asks the root chip's
-    core 0 for the machine's SCP buffer size)"""
-    return e["p"] or 1
+    """the core whose `sver` answer the epoch defines: an application core that runs software (never core 0 - the
+    controller asks the root chip's core 0 for the machine's SCP buffer size - and not the core whose status block
+    the epoch defines, which may be in any state)"""
+    return 1 if e["p"] != 1 else 2
+
+
+def core_alive(e):
+    """does the core whose status block the epoch defines answer commands itself?"""
+    return e["p"] == 0 or e["info"]["states"][e["p"]] in _ANSWERING[0]
 
 
 def session_apply(m, c, w, ci, ek):
@@ -1291,6 +1364,7 @@ def session_apply(m, c, w, ci, ek):
     for addr, data in session_image(w, ci, ek):
         m.poke(xy[0], xy[1], addr, bytes(data))
     m.info[xy] = w["img"][(ci, ek)]["info"]
+    m.set_states(xy[0], xy[1], e["info"]["states"])
     if "sver" in w["img"][(ci, ek)]:
         m.sver[xy + (sver_core(e),)] = w["img"][(ci, ek)]["sver"]
 
@@ -1322,7 +1396,13 @@ def session_probe(mc, c, w, st, cur):
             return f(*lead, **kw)
         if style == "ctx":
             kw = dict(x=x, y=y)
-            if with_p == "p":
+            # FINDING (reported, kept out of the generators): with the core number in the CONTEXT, rig's internal
+            # reads of sv / the vcpu block / the console chain pick it up and are addressed to that core instead of
+            # the monitor, so the probe times out for every core that does not answer commands.  The core number goes
+            # into the context only for cores that answer (C14_CTX_ANY_CORE=1 lifts this, to show the finding / test
+            # a repair).
+            alive = core_alive(ch["epochs"][cur[st["chip"]]]) or os.environ.get("C14_CTX_ANY_CORE") == "1"
+            if with_p == "p" and alive:
                 kw["p"] = p
                 with mc(**kw):
                     return f(*lead, **extra)
@@ -1361,7 +1441,9 @@ def session_probe(mc, c, w, st, cur):
         return coreinfo_json(raw), raw, coreinfo_json
     if op == "sv":
         # the optional core number of read_struct_field gets a non-default value in the keyword / context styles
-        raw = (call("read_struct_field", ("sv", st["name"]), "p") if style != "pos"
+        # (addressed to the core itself only when that core answers commands; otherwise to the monitor)
+        alive = core_alive(ch["epochs"][cur[st["chip"]]])
+        raw = (call("read_struct_field", ("sv", st["name"]), "p" if alive else None) if style != "pos"
                else mc.read_struct_field("sv", st["name"], x, y))
         return int(raw), raw, int
     if op == "vcpu":
@@ -1381,7 +1463,7 @@ def run_session(c, w, only=None):
     cur = [0] * len(c["chips"])
     for ci in range(len(cur)):
         session_apply(m, c, w, ci, 0)
-    budget = Budget()
+    budget = Budget(machine=m)
     net = simnet.Net(m.handle, budget)
     out, snaps, edits, kept, faults = [], [], [], [], []
     tries = c.get("n_tries", [3, 3])
@@ -1475,8 +1557,8 @@ def session_reqs(L, c, w, k, cur, impl):
         src = VCPU_NAMES[st["name"]]
         want = im["core"]["status"][src] if isinstance(src, str) else im["core"]["status"][src[0]][src[1]]
         model, oracle = L("vcpu_field", mem=mem, p=e["p"], name=st["name"]), L("val_ok", want=want, got=got)
-    if got is None:
-        oracle = None
+    if got is None or not nat_ok(got):
+        oracle = None               # an error, or a negative number: never the machine's values
     return model, oracle, okey
 
 
@@ -1488,7 +1570,8 @@ def probe_in_new_process(c, w, k):
     import sys
     import tempfile
     with tempfile.NamedTemporaryFile("w", suffix=".json", delete=False) as f:
-        json.dump({"c": c, "k": k, "img": [[ci, ek, v] for (ci, ek), v in w["img"].items()]}, f)
+        json.dump({"c": c, "k": k, "img": [[ci, ek, v] for (ci, ek), v in w["img"].items()],
+                   "answering": sorted(_ANSWERING[0])}, f)
     try:
         out = subprocess.run([sys.executable, "-c", "import sys; sys.path.insert(0, %r); sys.path.insert(0, %r); "
                               "from harness import c14; c14._child(%r)" % (common.VERIF, common.REPO, f.name)],
@@ -1504,6 +1587,7 @@ def probe_in_new_process(c, w, k):
 def _child(path):
     import json
     d = json.load(open(path))
+    _ANSWERING[0] = set(d["answering"])
     w = {"img": {(ci, ek): v for ci, ek, v in d["img"]}}
     print(json.dumps(run_session(d["c"], w, only=d["k"])[0][d["k"]]))
 
@@ -1527,6 +1611,8 @@ def session_model_norm(op, model):
 
 
 def session_verdict(r, okey):
+    if isinstance(r, dict) and "proto_error" in r:
+        return False                # the result is outside the value domain of the specification
     if isinstance(okey, tuple):             # the Lean specification's view of the chip, field okey[0], is okey[1]
         return r is not None and r[okey[0]] == okey[1]
     return r is not None and (r[okey] if okey else r) is True
@@ -1592,7 +1678,8 @@ def judge_session(ctx, c, w):
         # the identical probe (same chip, machine in the same state) made earlier in this session was right, and the
         # caller edited a returned object in between?
         same = [j for j in range(k) if c["steps"][j]["chip"] == st["chip"] and w["snaps"][j] == cur and
-                session_op(c, w, c["steps"][j], cur) == op and c["steps"][j].get("name") == st.get("name")]
+                session_op(c, w, c["steps"][j], cur) == op and c["steps"][j].get("name") == st.get("name") and
+                c["steps"][j].get("style") == st.get("style") and c["steps"][j].get("kind") == st.get("kind")]
         edits = [e for j in range(same[-1] if same else k, k) for e in w["edits"][j]]
         if same and edits:
             _TAINTED[0] = "probe-affected-by-caller-mutation"
@@ -1681,7 +1768,8 @@ def run_derive(c, w):
         m.poke(root[0], root[1], addr, bytes(data))
     for n, ch in enumerate(c["chips"]):
         m.info[(ch["x"], ch["y"])] = w["replies"][n]
-    budget = Budget()
+        m.set_states(ch["x"], ch["y"], ch["states"])
+    budget = Budget(machine=m)
     net = simnet.Net(m.handle, budget)
     recs = []
     si, keep = None, None
@@ -1762,6 +1850,7 @@ def run_derive(c, w):
 
 
 def eval_derive(ctx, cases):
+    ensure_answering(ctx)
     L = lambda op, **kw: dict(kw, suite="c14", op=op)  # noqa: E731
     # the Lean machine specification produces the bytes
     reqs, slots = [], []
@@ -1895,6 +1984,7 @@ def eval_cases(ctx, cases):
 
 
 def eval_plain_cases(ctx, cases):
+    ensure_answering(ctx)
     L = lambda op, **kw: dict(kw, suite="c14", op=op)  # noqa: E731
     # ---- stage 1: the Lean machine specification produces the bytes ------------------------
     reqs, slots = [], []
@@ -1947,6 +2037,7 @@ def eval_plain_cases(ctx, cases):
             rep = malformed_reply(w["reply"], c["malform"])
             m = ProbeMachine()
             m.info[m.chip(c["x"], c["y"])] = rep
+            m.set_states(*(m.chip(c["x"], c["y"]) + (c["state"]["states"],)))
             w["impl"] = run_controller(m, lambda mc: ci_json(mc.get_chip_info(c["x"], c["y"])))
             reqs.append(L("dec_info", **rep)); slots.append((i, "model"))
             if "ok" in w["impl"]:
@@ -1960,6 +2051,7 @@ def eval_plain_cases(ctx, cases):
             for n, ch in enumerate(c["chips"]):
                 rep = w["replies"][n]
                 m.info[(ch["x"], ch["y"])] = rep
+                m.set_states(ch["x"], ch["y"], ch["states"])
                 replies.append(dict(rep, x=ch["x"], y=ch["y"]))
 
             def probe(mc, c=c, root=root):
@@ -1991,6 +2083,9 @@ def eval_plain_cases(ctx, cases):
             for addr, data in spec["mem"]:
                 m.poke(c["x"], c["y"], addr, bytes(data))
             x, y, p = c["x"], c["y"], c["p"]
+            m.core_state[(x, y, p)] = c["status"]["cpu_state"]       # every other core of the chip is idle
+            ctx.tag("core_answers" if m.answers(x, y, p) else "core_silent")
+            m.unanswered = 0
             w["impl_status"] = run_controller(m, lambda mc: status_json(mc.get_processor_status(p, x, y)))
             w["impl_text"] = run_controller(m, lambda mc: list(mc.get_iobuf_bytes(p, x, y)))
             w["impl_diag"] = run_controller(m, lambda mc: [int(v) for v in mc.get_router_diagnostics(x, y)])
@@ -2002,9 +2097,11 @@ def eval_plain_cases(ctx, cases):
             reqs.append(L("status", mem=spec["mem"], p=p)); slots.append((i, "model_status"))
             reqs.append(L("iobuf", mem=spec["mem"], p=p, fuel=fuel)); slots.append((i, "model_text"))
             reqs.append(L("diag", mem=spec["mem"])); slots.append((i, "model_diag"))
+            got = {"status": w["impl_status"].get("ok"), "text": w["impl_text"].get("ok"), "diag": w["impl_diag"].get("ok")}
+            w["not_nat"] = [f for f, v in got.items() if not nat_ok(v)]
+            ctx.tag("core_full_range" if max(c["diag"]) >= 2 ** 31 else "core_small_counters")
             reqs.append(L("core_ok", status=c["status"], blocks=c["blocks"], diag=c["diag"],
-                          got_status=w["impl_status"].get("ok"), got_text=w["impl_text"].get("ok"),
-                          got_diag=w["impl_diag"].get("ok")))
+                          **{"got_" + f: (None if f in w["not_nat"] else v) for f, v in got.items()}))
             slots.append((i, "oracle"))
         elif k == "sver":
             rep = w["reply"]
@@ -2058,6 +2155,18 @@ def sort_machine(mj):
     for k in ("exceptions", "dead_chips", "dead_links"):
         mj[k] = sorted(mj[k])
     return mj
+
+
+def nat_ok(v):
+    """every number in a canonical result is a natural number (the value domain of the Lean specification: all
+    quantities a probe reads back are unsigned); a result with a negative number is wrong without asking"""
+    if isinstance(v, bool) or v is None or isinstance(v, str):
+        return True
+    if isinstance(v, int):
+        return v >= 0
+    if isinstance(v, dict):
+        return all(nat_ok(x) for x in v.values())
+    return all(nat_ok(x) for x in v)
 
 
 def err_key(text):
@@ -2163,7 +2272,7 @@ def judge(ctx, c, w):
         cmp(ctx, "diag", w["impl_diag"], w["model_diag"], desc)
         ctx.tag("core_blocks_%d" % len(c["blocks"]), "core_" + (c["malform"] or "valid"))
         nontriv = len(c["blocks"]) >= 1
-        o = w["oracle"]
+        o = dict(w["oracle"], **{f: False for f in w["not_nat"]})      # a negative number is never the machine's
         if c["malform"] is None and "err" in w["impl_status"]:
             ctx.violation(err_key(w["impl_status"]["err"]), "get_processor_status raised %s" % w["impl_status"]["err"], desc)
         elif not o["status"]:
